@@ -4,7 +4,7 @@
    (vm_compute) for the finite range in the statement; C16_partial = what is proved of C16_full. *)
 From Coq Require Import List ZArith QArith Bool Arith Lia.
 From GV Require Import Lib.Tree Lib.Graph16 Lib.PolyRefl16 Model.QCount Model.CliqueEq
-                       Proofs.QCountP Proofs.CliqueEqP Proofs.CycleGen Proofs.QQGen.
+                       Proofs.QCountP Proofs.CliqueEqP Proofs.CycleGen Proofs.QQGen Proofs.CliqueGen.
 Import ListNotations.
 
 (* ------------------------------------------------------------------------------------------------
@@ -144,6 +144,72 @@ Print Assumptions C16_QQ_counts_connected_graphs.
 Theorem C16_complete_graph_size : forall n, Z.of_nat (length (all_edges n)) = tri (Z.of_nat n).
 Proof. exact all_edges_length. Qed.
 Print Assumptions C16_complete_graph_size.
+
+(* ---- GENERAL (growth): the ingredients of the clique equation, for every tau.
+   omega(tau, kappa) IS the number of interface edges of a (kappa+1)-subset of a tau-clique: *)
+Theorem C16_omega_closed_form : forall tau kappa, (kappa < tau)%nat ->
+  omega tau kappa = Z.of_nat (S kappa * (tau - S kappa)).
+Proof. exact omega_closed. Qed.
+Print Assumptions C16_omega_closed_form.
+
+(* [ebd C e]: exactly one endpoint of e lies in C' = 0 :: C; C any subset of the other tau - 1 vertices *)
+Theorem C16_interface_edge_count : forall tau, (1 <= tau)%nat -> forall C, subl C (seq 1 (tau - 1)) ->
+  length (filter (ebd C) (all_edges tau)) = (S (length C) * (tau - S (length C)))%nat.
+Proof. exact boundary_count. Qed.
+Print Assumptions C16_interface_edge_count.
+
+(* the root's component of (K_tau, T) is C' exactly when T keeps no interface edge and T restricted to C'
+   connects C' ([comp tau T] = the vertices <> 0 that the specification multiplies over) *)
+Theorem C16_component_characterisation : forall tau, (1 <= tau)%nat -> forall C, subl C (seq 1 (tau - 1)) ->
+  forall T, edges_in (seq 0 tau) T ->
+  leqb C (comp tau T) = nilb (filter (ebd C) T) && connectedb (Cr C) (filter (ein C) T).
+Proof. exact comp_indicator. Qed.
+Print Assumptions C16_component_characterisation.
+
+(* connectivity, hence the count of connected graphs, is invariant under an injective relabelling *)
+Theorem C16_count_relabelling_invariant : forall (f : nat -> nat) K,
+  (forall i j, (i < K)%nat -> (j < K)%nat -> f i = f j -> i = j) ->
+  forall e, Z.of_nat (length (filter (fun T => connectedb (map f (seq 0 K)) T)
+                                     (combs e (map (emap f) (all_edges K))))) = brute K e.
+Proof. exact brute_relabel. Qed.
+Print Assumptions C16_count_relabelling_invariant.
+
+(* REGROUPING, every tau, NO hypothesis: the exact expectation on K_tau is
+   sum_kappa [ sum_e brute(kappa+1, e) phi^e (1-phi)^(C(kappa+1,2) - e) ] (1-phi)^((kappa+1)(tau-kappa-1))
+             x (sum over the kappa-subsets of the neighbours of the product of their H values)
+   ([W phi n e] = phi^e (1-phi)^(n-e); the free edges outside the component have total weight 1) *)
+Theorem C16_exact_clique_regrouped : forall tau phi Hs, (1 <= tau)%nat -> length Hs = (tau - 1)%nat ->
+  exact_val (seq 0 tau) (all_edges tau) 0 phi (fun v => nth (v - 1) Hs 0) ==
+  qsum (map (fun kappa => Rk phi tau kappa * qsum (map qprod (combs kappa Hs))) (seq 0 tau)).
+Proof. exact exact_clique_regrouped. Qed.
+Print Assumptions C16_exact_clique_regrouped.
+
+(* REDUCTION: the only unproved ingredient of the unbounded clique identity is
+   "Q n k counts the connected labelled graphs with n vertices and k edges" *)
+Theorem C16_clique_identity_reduces_to_Q_count :
+  (forall n k, (1 <= n)%nat -> (0 <= k <= tri (Z.of_nat n))%Z -> Qv n k = brute n (Z.to_nat k)) ->
+  forall tau, (2 <= tau)%nat ->
+  forall (phi : Q) (Hs : list Q), length Hs = (tau - 1)%nat ->
+    clique_val tau phi Hs == exact_val (seq 0 tau) (all_edges tau) 0 phi (fun v => nth (v - 1) Hs 0).
+Proof. exact clique_identity_reduces_to_Q_count. Qed.
+Print Assumptions C16_clique_identity_reduces_to_Q_count.
+
+(* the same with a bound: Q = brute for n <= N gives the clique identity for tau <= N *)
+Theorem C16_clique_identity_from_Q_count : forall N,
+  (forall n k, (1 <= n <= N)%nat -> (0 <= k <= tri (Z.of_nat n))%Z -> Qv n k = brute n (Z.to_nat k)) ->
+  forall tau, (2 <= tau <= N)%nat ->
+  forall (phi : Q) (Hs : list Q), length Hs = (tau - 1)%nat ->
+    clique_val tau phi Hs == exact_val (seq 0 tau) (all_edges tau) 0 phi (fun v => nth (v - 1) Hs 0).
+Proof. exact clique_identity_from_Q_count. Qed.
+Print Assumptions C16_clique_identity_from_Q_count.
+
+(* an independent second proof of C16_clique_identity_upto_6 (regrouping + Q = brute for n <= 6; no
+   polynomial normal forms involved) *)
+Theorem C16_clique_identity_upto_6_via_count : forall tau, (2 <= tau <= 6)%nat ->
+  forall (phi : Q) (Hs : list Q), length Hs = (tau - 1)%nat ->
+    clique_val tau phi Hs == exact_val (seq 0 tau) (all_edges tau) 0 phi (fun v => nth (v - 1) Hs 0).
+Proof. exact clique_identity_upto_6_via_count. Qed.
+Print Assumptions C16_clique_identity_upto_6_via_count.
 
 (* ---- GENERAL: the polynomial the model puts on the wire evaluates, for every valuation of the variables,
    to the code's arithmetic on rationals (so comparing polynomials compares the functions) *)
@@ -303,4 +369,23 @@ Example C16_nonvacuous_growth :
 Proof.
   split; [lia|]. split; [vm_compute; reflexivity|]. split; [vm_compute; reflexivity|].
   split; [vm_compute; split; discriminate|]. split; vm_compute; reflexivity.
+Qed.
+
+(* growth, the regrouping ingredients on K_5 with C = {2, 4} (C' = {0, 2, 4}, kappa = 2): the hypotheses of
+   C16_interface_edge_count / C16_component_characterisation hold, 6 interface edges = omega 5 2, and for
+   T = {02, 24, 13} the root's component is exactly C (both sides of the characterisation are true), while
+   T + {01} is rejected; the hypothesis of C16_clique_identity_from_Q_count is met for N = 6
+   (that instance is C16_clique_identity_upto_6_via_count) *)
+Example C16_nonvacuous_regroup :
+  subl [2; 4]%nat (seq 1 (5 - 1)) /\
+  length (filter (ebd [2; 4]%nat) (all_edges 5)) = 6%nat /\ omega 5 2 = 6%Z /\
+  edges_in (seq 0 5) [(0, 2); (2, 4); (1, 3)]%nat /\
+  leqb [2; 4]%nat (comp 5 [(0, 2); (2, 4); (1, 3)]%nat) = true /\
+  nilb (filter (ebd [2; 4]%nat) [(0, 2); (2, 4); (1, 3)]%nat)
+    && connectedb (Cr [2; 4]%nat) (filter (ein [2; 4]%nat) [(0, 2); (2, 4); (1, 3)]%nat) = true /\
+  leqb [2; 4]%nat (comp 5 [(0, 1); (0, 2); (2, 4); (1, 3)]%nat) = false.
+Proof.
+  split; [repeat constructor|]. split; [vm_compute; reflexivity|]. split; [vm_compute; reflexivity|].
+  split; [|repeat split; vm_compute; reflexivity].
+  intros e He. cbn in He. destruct He as [<-|[<-|[<-|[]]]]; cbn; lia.
 Qed.
